@@ -148,6 +148,7 @@ def items(tier: str, seed: int):
                         combos.append((asyncfn, an, wrap, st[0]))
         for block in chunks(combos, 40):
             out.append({"kind": "single", "linter": linter, "combos": block})
+        out.append({"kind": "twins", "linter": linter})
         if tier == "thorough":
             pairs = [(a[0], b[0]) for a in stmts for b in stmts]
             for block in chunks(pairs, 30):
@@ -303,6 +304,39 @@ def run_item(item) -> Acc:
         for i, (a, b) in enumerate(item["pairs"]):
             specs.append((True, "none" if i % 2 else "test", "top" if i % 3 else "cfgtest1", [a, b]))
         _build_and_run(acc, linter, specs, "pairs")
+    elif item["kind"] == "twins":
+        # two files of identical shape (same byte offsets for every item) that differ only in
+        # whether the leading line is `#[test]` or a comment of the same length, linted in ONE run
+        # in both orders: each file is judged on its own attributes
+        stmts = LINTERS[linter][0]
+        prefix = LINTERS[linter][1]
+        for st in stmts:
+            if not st[2] or not all(isinstance(off, int) for _r, off in st[2]):
+                continue  # statements whose expectation is a line range are left to the single items
+            body = "\n".join("    " + ln for ln in st[1])
+            fn = f"async fn work(path: &str, delay: Dur) -> Res {{\n{body}\n    done()\n}}\n"
+            files = {"src/a_test.rs": "#[test]\n" + fn, "src/b_plain.rs": "//plain\n" + fn}
+            assert len(files["src/a_test.rs"]) == len(files["src/b_plain.rs"])
+            # default configuration: expect() calls are allowed
+            want_plain = sorted((rule, 2 + off + 1) for rule, off in st[2] if rule != "unwrap-abuse.expect-call")
+            for order in (["src/a_test.rs", "src/b_plain.rs"], ["src/b_plain.rs", "src/a_test.rs"], ["src"]):
+                root = project(dict(files))
+                r = obs.cli_json([linter, *order], root)
+                remove(root)
+                acc.case()
+                acc.edge()
+                acc.valid()
+                acc.nt((linter, "twins", st[0], tuple(order)))
+                if r["violations"] is None:
+                    acc.fail({"linter": linter, "mode": f"exit{r['exit_code']}", "run": "twin-files"}, {"linter": linter, "twin_files": files, "order": order}, "exit 0/1", r["stderr"][-200:])
+                    continue
+                got = {}
+                for v in r["violations"]:
+                    if v["rule_id"].startswith(prefix):
+                        got.setdefault(v["file"].replace("\\", "/").split("src/")[-1], []).append((v["rule_id"], v["line"]))
+                g_plain, g_test = sorted(got.get("b_plain.rs", [])), sorted(got.get("a_test.rs", []))
+                if g_plain != want_plain or g_test:
+                    acc.fail({"linter": linter, "mode": "file-judged-by-the-other-files-attributes", "run": "twin-files", "stmt": st[0]}, {"linter": linter, "twin_files": files, "order": order}, {"b_plain.rs": want_plain, "a_test.rs": []}, {"b_plain.rs": g_plain, "a_test.rs": g_test})
     elif item["kind"] == "extended":
         stmts = LINTERS[linter][0]
         specs = [(True, an, "top", [st[0]]) for an in EXT_ATTRS for st in stmts]
@@ -313,6 +347,9 @@ def run_item(item) -> Acc:
 def replay_case(case) -> list[dict]:
     """Rebuild the file from its item specs, re-run the real CLI and the model, keep this case."""
     acc = Acc()
+    if case.get("twin_files"):
+        a = run_item({"kind": "twins", "linter": case["linter"]})
+        return [f for f in a.failures if f["case"].get("twin_files") == case["twin_files"] and f["case"].get("order") == case["order"]]
     line = case.get("line")
     lo, hi = (line, line) if isinstance(line, int) else tuple(line)
     src = case["text"].split("\n")
